@@ -965,3 +965,56 @@ def check_close_fresh(ctx):
                   f'{len(seen)} function(s) of the closure: nothing '
                   f'remembered between calls', at=start.where(),
                   nontrivial=False)
+
+
+# ----------------------------------------------------------- CACHE-KEEP ---
+
+SHRINKERS = {'pop', 'popitem', 'clear', '__delitem__'}
+
+
+def check_cache_keep(ctx):
+    """"Identical requests get the same task": what the memo remembers it
+    keeps.  No code of the module removes entries from the memo container
+    (pop / popitem / clear / del / re-binding to a fresh container outside
+    the constructor): after an eviction the next identical request builds a
+    SECOND task object for the same name."""
+    program = ctx.program
+    n = 0
+    for key in SITES:
+        site = find_memo_site(program, key)
+        fld = _field_of(ast.parse(site.cache, mode='eval').body)
+        n += 1
+        mod = site.func.module
+        program.consulted.add(mod.relpath)
+        bad = []
+        for func in mod.functions.values():
+            for node in walk_local(func.node):
+                hit = None
+                if isinstance(node, ast.Call) and call_name(node) in \
+                        SHRINKERS and receiver(node) is not None and \
+                        _field_of(receiver(node)) == fld:
+                    hit = node
+                elif isinstance(node, ast.Delete) and any(
+                        isinstance(t, ast.Subscript) and
+                        _field_of(t.value) == fld for t in node.targets):
+                    hit = node
+                elif isinstance(node, ast.Assign) and any(
+                        _field_of(t) == fld for t in node.targets) and \
+                        func.name not in ('__init__', '__new__') and \
+                        site.level == 'instance' and func.cls is \
+                        site.func.cls:
+                    hit = node
+                if hit is not None:
+                    bad.append((func, hit))
+        for func, node in bad:
+            ctx.violated('CACHE-KEEP', func,
+                         f'{func.name}: {txt(node)[:60]} removes entries '
+                         f'from the memo {site.cache}', at=func.where(node),
+                         detail='after the eviction an identical request '
+                                'misses the memo and a second task object '
+                                'is created for the same name')
+        if not bad:
+            ctx.holds('CACHE-KEEP', site.func,
+                      f'nothing in {mod.name} removes entries from '
+                      f'{site.cache}', at=site.func.where(site.store))
+    ctx.floor('CACHE-KEEP', n, 2, 'memo sites')
